@@ -374,8 +374,11 @@ fn strs(v: &[String]) -> String {
 pub fn translate() -> (String, Value) {
     let mut tys = vec![];
     let mut errors = vec![];
+    // H20_REPO: only for testing the translator on a mutated copy of the sources
+    let root = std::env::var("H20_REPO").unwrap_or_default();
     for (tag, path) in FILES {
-        if let Err(e) = read_file(tag, path, &mut tys) {
+        let path = if root.is_empty() { path.to_string() } else { path.replacen("/repo", &root, 1) };
+        if let Err(e) = read_file(tag, &path, &mut tys) {
             errors.push(e);
         }
     }
